@@ -3,7 +3,7 @@ from .. import terms as T
 from ..terms import const, atom
 from .. import q
 from ..q import A, S, guards
-from . import c01
+from . import c01, common
 
 NN = ("y_true", "y_pred")
 
@@ -39,6 +39,13 @@ def run(ctx):
     eddm(ctx)
     stepd(ctx)
     c01.clause_recs_for(ctx, ["DDM", "EDDM", "STEPD"])
+    # the statement ranges over multiple epochs: prologue, counting, clean slate, constructor wiring, starting values
+    common.lifecycle(ctx, ["DDM", "EDDM", "STEPD"], recs=["DDM", "EDDM"])
+    common.recs_table_stepd(ctx, NN)
+    inf = const(float("inf"))
+    common.init_table(ctx, "DDM", {"_error_rate": 0, "_error_std": 0, "_error_rate_min": inf, "_error_std_min": inf})
+    common.init_table(ctx, "EDDM", {"_n_errors": 0, "_index_error_curr": 0, "_dist_mean": 0, "_dist_std": 0, "_max_numerator": 0})
+    common.init_table(ctx, "STEPD", {"_s": 0, "_r": 0, "_window": atom(("list", ()))})
 
 
 def ddm(ctx):
@@ -46,6 +53,7 @@ def ddm(ctx):
     tr = ctx.trace("DDM", "update", assume={"_drift_state": None}, nonnull=NN)
     e, op, iev = indicator(tr)
     ctx.require(e is not None, "DDM.update computes int(<label comparison>)")
+    common.labels_extracted(ctx, "DDM", tr, q.is_cmp(iev.args[0]))
     ctx.ob("POLARITY", site, "DDM indicator is the error indicator (y_pred != y_true)", op == "!=", "operator %s" % op, iev)
     n = A("_samples_since_reset") + const(1)
     env = {"e": e, "n": n}
@@ -90,6 +98,7 @@ def eddm(ctx):
     tr = ctx.trace("EDDM", "update", assume={"_drift_state": None}, nonnull=NN)
     e, op, iev = indicator(tr)
     ctx.require(e is not None, "EDDM.update computes int(<label comparison>)")
+    common.labels_extracted(ctx, "EDDM", tr, q.is_cmp(iev.args[0]))
     ctx.ob("POLARITY", site, "EDDM indicator is the correctness indicator (y_pred == y_true)", op == "==", "operator %s" % op, iev)
     err = T.mk_not(e)
     k = A("_n_errors") + const(1)
@@ -138,6 +147,7 @@ def stepd(ctx):
     tr = ctx.trace("STEPD", "update", assume={"_drift_state": None}, nonnull=NN)
     e, op, iev = indicator(tr)
     ctx.require(e is not None, "STEPD.update computes int(<label comparison>)")
+    common.labels_extracted(ctx, "STEPD", tr, q.is_cmp(iev.args[0]))
     ctx.ob("POLARITY", site, "STEPD indicator is the correctness indicator (y_pred == y_true)", op == "==", "operator %s" % op, iev)
     n = A("_samples_since_reset") + const(1)
     w = A("window_size")
